@@ -8,8 +8,36 @@ namespace hx_lr {
 enum { OP_UPDATE = 1, OP_READ = 2, OP_APPLY = 40 };
 struct Rec {
   uint64_t a = 0, b = 0, c = 0;
+  void add(uint64_t d) {
+    a += d;
+    b += d;
+    c += d;
+  }
+  bool get(uint64_t& x, uint64_t& y, uint64_t& z) const {
+    x = a, y = b, z = c;
+    return true;
+  }
 };
-using LR = xenium::left_right<Rec>;
+// An instance type that owns heap memory and whose move constructor empties its source (what std::vector, std::string
+// and every container do): the two instances have to be initialised as two independent, complete copies of the source
+// value, whichever constructor is used (seed RAk: the single-source constructor copying from an already moved-from
+// argument).
+struct VRec {
+  std::vector<uint64_t> v;
+  VRec() : v(3, 0) {}
+  void add(uint64_t d) {
+    for (auto& x : v) x += d;
+  }
+  bool get(uint64_t& x, uint64_t& y, uint64_t& z) const {
+    if (v.size() != 3) return false;
+    x = v[0], y = v[1], z = v[2];
+    return true;
+  }
+};
+struct Vals {
+  bool ok;
+  uint64_t a, b, c;
+};
 
 // An update functor with ref-qualified call operators, passed as a temporary: the library invokes the functor once
 // per instance; both invocations have to apply the same update ("every update is applied exactly once to each of the
@@ -17,16 +45,51 @@ using LR = xenium::left_right<Rec>;
 struct Inc {
   int64_t id;
   uint64_t delta = 1;
-  void apply(Rec& r, uint64_t d) {
+  template <class R>
+  void apply(R& r, uint64_t d) {
     note(OP_APPLY, id, (int64_t)(reinterpret_cast<uintptr_t>(&r) & 0xffffff), (int64_t)d);
-    r.a += d;
-    r.b += d;
-    r.c += d;
+    r.add(d);
   }
-  void operator()(Rec& r) & { apply(r, delta); }
-  void operator()(Rec& r) && {
+  template <class R>
+  void operator()(R& r) & {
+    apply(r, delta);
+  }
+  template <class R>
+  void operator()(R& r) && {
     apply(r, delta);
     delta = 0; // an rvalue call may consume the functor
+  }
+};
+
+struct LRBase {
+  virtual ~LRBase() {}
+  virtual void update(int64_t id) = 0;
+  virtual Vals read(bool by_ref) = 0;
+};
+// ctor: 0 single-source constructor, 1 two-source constructor, 2 default constructor
+template <class R>
+struct LRImpl : LRBase {
+  xenium::left_right<R> lr;
+  static xenium::left_right<R> make(int ctor) {
+    if (ctor == 0) return xenium::left_right<R>(R{});
+    if (ctor == 1) return xenium::left_right<R>(R{}, R{});
+    return xenium::left_right<R>();
+  }
+  explicit LRImpl(int ctor) : lr(make(ctor)) {}
+  void update(int64_t id) override {
+    if (id & 1)
+      lr.update(Inc{id});
+    else
+      lr.update([id](R& r) {
+        note(OP_APPLY, id, (int64_t)(reinterpret_cast<uintptr_t>(&r) & 0xffffff), 1);
+        r.add(1);
+      });
+  }
+  Vals read(bool by_ref) override {
+    R v = by_ref ? R(lr.read([](const R& r) -> const R& { return r; })) : lr.read([](const R& r) { return r; });
+    Vals o;
+    o.ok = v.get(o.a, o.b, o.c);
+    return o;
   }
 };
 
@@ -47,15 +110,20 @@ struct CModel {
 };
 
 class LRHarness : public Harness {
-  LR* lr = nullptr;
+  LRBase* lr = nullptr;
 
 public:
   const char* name() const override { return "lr"; }
-  int num_configs() const override { return 1; }
-  const char* config_name(int) const override { return "left_right<Rec>"; }
+  int num_configs() const override { return 5; }
+  const char* config_name(int i) const override {
+    static const char* n[] = {"left_right<Rec>", "left_right<VRec>/single_source_ctor", "left_right<VRec>/two_source_ctor", "left_right<VRec>/default_ctor",
+                              "left_right<Rec>/default_ctor"};
+    return n[i];
+  }
   const char* op_name(int k) const override { return k == OP_UPDATE ? "update" : k == OP_READ ? "read" : "apply"; }
   void generate(GenCtx& g, Program& p) override {
-    p.config = 0;
+    // half of the runs keep the plain record; the others use the heap-owning record with one of the three constructors
+    p.config = g.rng.chance(50) ? 0 : 1 + (int)g.rng.below(4);
     int nw = g.rng.range(1, 2), nr = g.rng.range(1, g.tier ? 3 : 2);
     p.threads.resize(nw + nr);
     int uid = 1;
@@ -71,31 +139,35 @@ public:
     }
     g.opt.step_cap = 200000;
   }
-  void setup(const Program&) override { lr = new LR(Rec{}); }
+  void setup(const Program& p) override {
+    switch (p.config) {
+      case 0: lr = new LRImpl<Rec>(0); break;
+      case 1: lr = new LRImpl<VRec>(0); break;
+      case 2: lr = new LRImpl<VRec>(1); break;
+      case 3: lr = new LRImpl<VRec>(2); break;
+      default: lr = new LRImpl<Rec>(2); break;
+    }
+  }
+  static void check_vals(const Vals& v) {
+    if (!v.ok) xsim::fail("instance-corrupt", "read observed an instance that is not a complete copy of the value the left_right was constructed from (moved-from / empty)");
+    if (v.a != v.b || v.b != v.c) xsim::fail("mixed-read", "read observed a partially updated instance: a=%lu b=%lu c=%lu", v.a, v.b, v.c);
+  }
   void exec(int, const Op& op) override {
     if (op.kind == OP_UPDATE) {
       op_begin(OP_UPDATE, op.a, 0, 0, 0);
-      int64_t id = op.a;
-      if (id & 1)
-        lr->update(Inc{id});
-      else
-        lr->update([id](Rec& r) {
-          note(OP_APPLY, id, (int64_t)(reinterpret_cast<uintptr_t>(&r) & 0xffffff), 1);
-          r.a++;
-          r.b++;
-          r.c++;
-        });
+      lr->update(op.a);
       op_end(1);
     } else {
       op_begin(OP_READ, op.a, 0, 0, OPF_LOCKFREE);
-      Rec v = op.a ? Rec(lr->read([](const Rec& r) -> const Rec& { return r; })) : lr->read([](const Rec& r) { return r; });
-      if (v.a != v.b || v.b != v.c) xsim::fail("mixed-read", "read observed a partially updated instance: a=%lu b=%lu c=%lu", v.a, v.b, v.c);
+      Vals v = lr->read(op.a != 0);
+      check_vals(v);
       op_end(1, (int64_t)v.a);
     }
   }
   void teardown(int) override {
     op_begin(OP_READ, 0, 0, 0, OPF_LOCKFREE);
-    Rec v = lr->read([](const Rec& r) { return r; });
+    Vals v = lr->read(false);
+    check_vals(v);
     op_end(1, (int64_t)v.a);
     delete lr;
     lr = nullptr;
